@@ -294,6 +294,9 @@ type TLG struct {
 	fieldElemT  map[*types.Var]string
 	changed     bool
 	warm        bool
+	lastRetOK   []AV  // Probe only: the ok-exit results of the function just analysed
+	curAn       *fnAn // during a Probe callback: the analysis and state at the instruction
+	curSt       tstate
 	round       int
 
 	collect bool
@@ -356,9 +359,33 @@ func (c *Ctx) TLG() *TLG {
 
 // ProbeAssume is Probe under the assumption that value v has the abstract value av.
 func (t *TLG) ProbeAssume(fn *ssa.Function, v ssa.Value, av AV, visit func(in ssa.Instruction, eval func(ssa.Value) AV, locAV func(key string) (AV, bool))) {
-	t.assume = map[ssa.Value]AV{v: av}
+	t.ProbeAssumeAll(fn, map[ssa.Value]AV{v: av}, visit)
+}
+
+// ProbeAssumeAll is ProbeAssume with several assumed values.
+func (t *TLG) ProbeAssumeAll(fn *ssa.Function, as map[ssa.Value]AV, visit func(in ssa.Instruction, eval func(ssa.Value) AV, locAV func(key string) (AV, bool))) {
+	t.assume = as
 	defer func() { t.assume = nil }()
 	t.Probe(fn, visit)
+}
+
+// OKResultsAssuming: the results of fn on its exits that can carry a nil error,
+// computed under the assumption that value v of fn is av (a case split inside a
+// helper: with the element tag it reads assumed to be TagEnd, which counts can
+// it hand back without an error?). nil if fn has no such exit under the assumption.
+func (t *TLG) OKResultsAssuming(fn *ssa.Function, v ssa.Value, av AV) []AV {
+	t.lastRetOK = nil
+	t.ProbeAssume(fn, v, av, func(ssa.Instruction, func(ssa.Value) AV, func(string) (AV, bool)) {})
+	return t.lastRetOK
+}
+
+// ProbeErrNonNil: inside a Probe callback, whether the error value v is known to
+// be non-nil at the instruction being visited.
+func (t *TLG) ProbeErrNonNil(v ssa.Value) bool {
+	if t.curAn == nil {
+		return false
+	}
+	return t.curAn.errNonNil(v, t.curSt)
 }
 
 // pureFn: a module function that only computes: no stores outside its own
@@ -495,6 +522,10 @@ func (t *TLG) analyze(fn *ssa.Function) {
 			av.Src = pt[i].Src
 		}
 		entry["V:"+p.Name()] = av
+		if as, ok := t.assume[ssa.Value(p)]; ok {
+			entry["V:"+p.Name()] = as
+			a.vals[p.Name()] = p
+		}
 	}
 	a.in[fn.Blocks[0]] = entry
 	work := []*ssa.BasicBlock{fn.Blocks[0]}
@@ -628,6 +659,9 @@ func (t *TLG) analyze(fn *ssa.Function) {
 			}
 		}
 	}
+	if t.probe != nil {
+		t.lastRetOK = a.retOK
+	}
 	mergeSum(t.ret, a.retAV)
 	mergeSum(t.retOK, a.retOK)
 	mergePost := func(m map[*ssa.Function][]AV, cur []AV) {
@@ -678,6 +712,7 @@ func (a *fnAn) blockCollect(b *ssa.BasicBlock, st tstate) {
 	a.events = a.events[:0]
 	for _, in := range b.Instrs {
 		if a.t.probe != nil {
+			a.t.curAn, a.t.curSt = a, st
 			a.t.probe(in, func(v ssa.Value) AV { return a.eval(v, st) }, func(key string) (AV, bool) { av, ok := st["L:"+key]; return av, ok })
 		}
 		a.instr(in, st, a.t.probe == nil)
@@ -1339,6 +1374,19 @@ func (a *fnAn) refine(st tstate, cond ssa.Value, truth bool, b *ssa.BasicBlock) 
 					continue
 				}
 			}
+			// arriving over this edge also means the predecessor's own branch went this way
+			// (a && b: the edge that carries the constant false is the one where a was false)
+			if i < len(b.Preds) {
+				p := b.Preds[i]
+				if iff, ok := p.Instrs[len(p.Instrs)-1].(*ssa.If); ok && len(p.Succs) == 2 && p.Succs[0] != p.Succs[1] {
+					if _, isPhiCond := iff.Cond.(*ssa.Phi); !isPhiCond {
+						cand = a.refine(cand, iff.Cond, p.Succs[0] == b, p)
+						if cand == nil {
+							continue
+						}
+					}
+				}
+			}
 			if res == nil {
 				res = cand
 			} else {
@@ -1860,6 +1908,21 @@ func (a *fnAn) errNonNil(v ssa.Value, st tstate) bool {
 		// a package-level sentinel: var errX = errors.New(...)
 		if g, ok := x.X.(*ssa.Global); ok && x.Op == token.MUL && a.t.sentinelError(g) {
 			return true
+		}
+		// a result slot (functions with a defer spill their results): what was stored last in this block
+		if al, ok := x.X.(*ssa.Alloc); ok && x.Op == token.MUL {
+			var last ssa.Value
+			for _, in := range x.Block().Instrs {
+				if in == ssa.Instruction(x) {
+					break
+				}
+				if s, ok := in.(*ssa.Store); ok && s.Addr == ssa.Value(al) {
+					last = s.Val
+				}
+			}
+			if last != nil && last != v {
+				return a.errNonNil(last, st)
+			}
 		}
 	}
 	_, ok := st["N:"+v.Name()]
